@@ -150,6 +150,9 @@ impl FileSystem for OverlayFS {
         if !write_path.exists()? {
             // look the file up first: a failing append must not materialise parent directories
             let read_path = self.read_path(path)?;
+            if read_path.metadata()?.file_type != VfsFileType::File {
+                return Err(VfsErrorKind::Other("Not a file".into()).into());
+            }
             self.ensure_has_parent(path)?;
             read_path.copy_file(&write_path)?;
         }
